@@ -181,6 +181,10 @@ seq_t dtw_warping_paths{{ suffix }}{{ suffix2 }}(seq_t *wps,
         for (idx_t i=ri_width + wpsi; i<ri_width + p.width; i++) {
             wps[i] = {{infinity}};
         }
+        {%- if "affinity" not in suffix %}
+        // wpsi is the position after the last in-band column, also when the row was left early by pruning
+        wpsi += max_ci - ci;
+        {%- endif %}
         max_ci++;
         ri_widthp = ri_width;
         ri_width += p.width;
@@ -251,6 +255,10 @@ seq_t dtw_warping_paths{{ suffix }}{{ suffix2 }}(seq_t *wps,
         for (idx_t i=ri_width + wpsi; i<ri_width + p.width; i++) {
             wps[i] = {{infinity}};
         }
+        {%- if "affinity" not in suffix %}
+        // wpsi is the position after the last in-band column, also when the row was left early by pruning
+        wpsi += max_ci - ci;
+        {%- endif %}
         ri_widthp = ri_width;
         ri_width += p.width;
     }
@@ -321,6 +329,10 @@ seq_t dtw_warping_paths{{ suffix }}{{ suffix2 }}(seq_t *wps,
         for (idx_t i=ri_width + wpsi; i<ri_width + p.width; i++) {
             wps[i] = {{infinity}};
         }
+        {%- if "affinity" not in suffix %}
+        // wpsi is the position after the last in-band column, also when the row was left early by pruning
+        wpsi += max_ci - ci;
+        {%- endif %}
         min_ci++;
         max_ci++;
         ri_widthp = ri_width;
@@ -401,6 +413,10 @@ seq_t dtw_warping_paths{{ suffix }}{{ suffix2 }}(seq_t *wps,
         for (idx_t i=ri_width + wpsi; i<ri_width + p.width; i++) {
             wps[i] = {{infinity}};
         }
+        {%- if "affinity" not in suffix %}
+        // wpsi is the position after the last in-band column, also when the row was left early by pruning
+        wpsi += l2 - ci;
+        {%- endif %}
         // printf("%zi [", ri);
         // for (idx_t i=ri_width; i<ri_width + p.width; i++) {
         //     printf("%7.3f, ", wps[i]);
